@@ -1,6 +1,348 @@
 import Req.Client.Retry
 import Req.Client.Attempt
 import Req.Client.Backoff
-/-! C10 — property theorems (in progress). -/
+import Req.Lemmas.C10Loop
+/-!
+C10 — retry: bounded, condition-driven, every attempt sends the same request.
+
+All theorems are about the REPAIRED code (`Variant.repaired`, i.e. /repo with
+fixes/C10-1 … C10-6 applied); for the code as found the corresponding statements are false and
+the counter-examples are `decide`d at the end of each part (`asFound_*`) and replayed on the
+implementation by the lanes (`c10Witnesses` in the harness).
+
+Part 1 (this section): the loop.  `script` is the sequence of round-trip outcomes, one per
+iteration; `ra` is `Request.RetryAttempt` when the loop is entered (0 in `run`).
+-/
 namespace Req.Props.C10
+open Req.Retry Req.Lemmas.C10Loop
+
+variable {σ W : Type} (p : Policy σ) (mw : Nat → σ → σ × W)
+
+/-- The number of leading iterations after which the specification `wants` a further attempt. -/
+def retries : List Outcome → Nat → Nat
+  | [], _ => 0
+  | o :: rest, ra => if wants p o ra then retries rest (ra + 1) + 1 else 0
+
+/-- The number of iterations (attempts) the specification allows on `script`: one more than the
+retries it asks for, as far as the script goes. -/
+def specAttempts (script : List Outcome) (ra : Nat) : Nat := min (retries p script ra + 1) script.length
+
+theorem specAttempts_cons (o : Outcome) (rest : List Outcome) (ra : Nat) :
+    specAttempts p (o :: rest) ra = 1 + (if wants p o ra then specAttempts p rest (ra + 1) else 0) := by
+  have hr : retries p (o :: rest) ra = (if wants p o ra then retries p rest (ra + 1) + 1 else 0) := rfl
+  unfold specAttempts
+  rw [hr]
+  split <;> simp <;> omega
+
+/-- The loop makes exactly the attempts the specification allows. -/
+theorem iterations_loop (script : List Outcome) (ra : Nat) (st : σ) (prev : Option Resp) :
+    iterations (loop R p mw script ra st prev).1 = specAttempts p script ra := by
+  induction script generalizing ra st prev with
+  | nil => simp [loop, iterations, specAttempts]
+  | cons o rest ih =>
+    rw [specAttempts_cons]
+    by_cases h : wants p o ra = true
+    · obtain ⟨ev, hev, hi, -⟩ := iter_cont p mw o ra st prev h
+      rw [loop_cons_cont p mw o rest ra st prev h, iterations_append, ih, hev]
+      simp [h, hi]
+    · have h' : wants p o ra = false := by simpa using h
+      obtain ⟨ev, fin, hev, hi, -⟩ := iter_stop p mw o ra st prev h'
+      obtain ⟨fin', _, hl⟩ := loop_cons_stop p mw o rest ra st prev h'
+      rw [hl, hev]
+      simp [h', hi]
+
+/-- **retry_iff** (one pass): the loop goes round again exactly when the specification asks for
+it: no middleware aborted the call, the context was not cancelled, retries are enabled and not
+used up (or unbounded), and the conditions — or, with none, the default rule "an error
+occurred" — say yes. -/
+theorem retry_iff_step (o : Outcome) (ra : Nat) (st : σ) (prev : Option Resp) :
+    (∃ x, (iteration R p mw o ra st prev).2 = .inr x) ↔ wants p o ra = true := by
+  constructor
+  · rintro ⟨x, hx⟩
+    by_cases h : wants p o ra = true
+    · exact h
+    · have h' : wants p o ra = false := by simpa using h
+      obtain ⟨ev, fin, hev, -⟩ := iter_stop p mw o ra st prev h'
+      simp [hev] at hx
+  · intro h
+    obtain ⟨ev, hev, -⟩ := iter_cont p mw o ra st prev h
+    exact ⟨(nextState p mw o ra st, some (respOf o ra)), by rw [hev]⟩
+
+/-- What `wants` means, spelled out. -/
+theorem wants_iff (o : Outcome) (ra : Nat) :
+    wants p o ra = true ↔
+      o ≠ .beforeErr ∧ aborted p o ra = false ∧ o ≠ .cancelled ∧ p.enabled = true ∧
+      (p.maxRetries < 0 ∨ (ra : Int) < p.maxRetries) ∧
+      (if p.conds.isEmpty then o.errKind.isSome = true
+       else ∃ c ∈ p.conds, c.2 ⟨ra, o.view, o.errKind⟩ = true) := by
+  unfold wants need
+  by_cases hc : p.conds.isEmpty = true <;>
+    simp [hc, and_assoc]
+
+/-- **retry_iff** (whole run): attempt `k+1` happens iff attempt `k` happened, the script has an
+outcome for it, and the specification wanted a retry after attempt `k`. -/
+theorem retry_iff (script : List Outcome) (ra : Nat) (st : σ) (prev : Option Resp) (k : Nat) :
+    k + 1 < iterations (loop R p mw script ra st prev).1 ↔
+      k < iterations (loop R p mw script ra st prev).1 ∧ k + 1 < script.length ∧
+      ∃ o, script[k]? = some o ∧ wants p o (ra + k) = true := by
+  rw [iterations_loop]
+  induction script generalizing ra k with
+  | nil => simp [specAttempts]
+  | cons o rest ih =>
+    rw [specAttempts_cons]
+    cases k with
+    | zero =>
+      have hpos : 0 < specAttempts p rest (ra + 1) ↔ 0 < rest.length := by
+        unfold specAttempts; omega
+      by_cases h : wants p o ra = true <;> simp [h, hpos] <;> omega
+    | succ k =>
+      have e : ra + (k + 1) = ra + 1 + k := by omega
+      by_cases h : wants p o ra = true
+      · have hih := ih (ra + 1) k
+        simp only [h, ↓reduceIte, List.length_cons, List.getElem?_cons_succ, e]
+        constructor
+        · intro h1
+          obtain ⟨a, b, c⟩ := hih.mp (by omega)
+          exact ⟨by omega, by omega, c⟩
+        · rintro ⟨a, b, c⟩
+          have := hih.mpr ⟨by omega, by omega, c⟩
+          omega
+      · simp [h]
+
+/-- **attempts_bound**: with a non-negative retry count `N` at most `N + 1` attempts are made. -/
+theorem retries_le (script : List Outcome) (ra : Nat) (hN : 0 ≤ p.maxRetries) :
+    retries p script ra ≤ (p.maxRetries - ra).toNat := by
+  induction script generalizing ra with
+  | nil => simp [retries]
+  | cons o rest ih =>
+    unfold retries
+    split
+    next h =>
+      have hw := (wants_iff p o ra).mp h
+      have := ih (ra + 1)
+      have hlt : (ra : Int) < p.maxRetries := by
+        rcases hw.2.2.2.2.1 with h1 | h1
+        · omega
+        · exact h1
+      omega
+    next => omega
+
+theorem attempts_bound (unreplayable : Bool) (script : List Outcome) (st : σ) (hN : 0 ≤ p.maxRetries) :
+    iterations (run R p mw unreplayable script st).events ≤ p.maxRetries.toNat + 1 := by
+  unfold run
+  split
+  · simp [iterations]
+  · simp only [iterations_loop, specAttempts]
+    have := retries_le p script 0 hN
+    simp at this
+    omega
+
+/-- No more requests go on the wire than attempts are made. -/
+theorem wires_le_iterations (script : List Outcome) (ra : Nat) (st : σ) (prev : Option Resp) :
+    (wires (loop R p mw script ra st prev).1).length ≤ iterations (loop R p mw script ra st prev).1 := by
+  induction script generalizing ra st prev with
+  | nil => simp [loop, wires]
+  | cons o rest ih =>
+    by_cases h : wants p o ra = true
+    · obtain ⟨ev, hev, hi, hw, -⟩ := iter_cont p mw o ra st prev h
+      rw [loop_cons_cont p mw o rest ra st prev h, iterations_append, wires_append, hev]
+      have := ih (ra + 1) (nextState p mw o ra st) (some (respOf o ra))
+      simp only [hw, hi, List.length_append, List.length_cons, List.length_nil]
+      omega
+    · have h' : wants p o ra = false := by simpa using h
+      obtain ⟨ev, fin, hev, hi, _, hw, -⟩ := iter_stop p mw o ra st prev h'
+      obtain ⟨fin', _, hl⟩ := loop_cons_stop p mw o rest ra st prev h'
+      rw [hl, hev]
+      simp only [hw, hi]
+      split <;> simp
+
+theorem wire_bound (unreplayable : Bool) (script : List Outcome) (st : σ) (hN : 0 ≤ p.maxRetries) :
+    (wires (run R p mw unreplayable script st).events).length ≤ p.maxRetries.toNat + 1 := by
+  have h1 := attempts_bound p mw unreplayable script st hN
+  unfold run at *
+  split
+  · simp [wires]
+  · rename_i hc
+    simp only [hc] at h1
+    exact Nat.le_trans (wires_le_iterations p mw script 0 st none) h1
+
+/-- Without a retry option, or with a count of 0, exactly one attempt is made. -/
+theorem single_attempt (script : List Outcome) (ra : Nat) (st : σ) (prev : Option Resp)
+    (h : p.enabled = false ∨ p.maxRetries = 0) (hs : script ≠ []) :
+    iterations (loop R p mw script ra st prev).1 = 1 := by
+  rw [iterations_loop]
+  cases script with
+  | nil => exact absurd rfl hs
+  | cons o rest =>
+    rw [specAttempts_cons]
+    have : wants p o ra = false := by
+      cases hw : wants p o ra with
+      | false => rfl
+      | true =>
+        have := (wants_iff p o ra).mp hw
+        rcases h with h | h
+        · simp [h] at this
+        · have := this.2.2.2.2.1; omega
+    simp [this]
+
+/-- **unbounded only for a negative count**: with `N < 0` the loop goes on for as long as the
+outcomes ask for it (here: the whole script, whatever its length). -/
+theorem unbounded_when_negative (script : List Outcome) (ra : Nat) (st : σ) (prev : Option Resp)
+    (hall : ∀ k o, script[k]? = some o → wants p o (ra + k) = true) :
+    iterations (loop R p mw script ra st prev).1 = script.length := by
+  rw [iterations_loop]
+  induction script generalizing ra with
+  | nil => simp [specAttempts]
+  | cons o rest ih =>
+    rw [specAttempts_cons]
+    have h0 := hall 0 o (by simp)
+    simp only [Nat.add_zero] at h0
+    have := ih (ra + 1) (fun k o' hk => by
+      have := hall (k + 1) o' (by simpa using hk)
+      have e : ra + (k + 1) = ra + 1 + k := by omega
+      rwa [e] at this)
+    simp [h0, this]; omega
+
+theorem range_flatMap_succ {α : Type} (f : Nat → List α) (n : Nat) :
+    (List.range (n + 1)).flatMap f = f 0 ++ (List.range n).flatMap fun j => f (j + 1) := by
+  simp [List.range_succ_eq_map, List.flatMap_map]
+
+/-- **hooks_once_per_retry**: the calls of retry hooks and of the interval function over the
+whole run are, for retry number `j = 1, 2, …` in turn: every registered hook once, in reverse
+registration order, then the interval function once — all with attempt number `j`. -/
+theorem hooks_once_per_retry (script : List Outcome) (ra : Nat) (st : σ) (prev : Option Resp) :
+    calls (loop R p mw script ra st prev).1 =
+      (List.range (retries p script ra)).flatMap fun j => block p (ra + j + 1) := by
+  induction script generalizing ra st prev with
+  | nil => simp [loop, calls, retries]
+  | cons o rest ih =>
+    by_cases h : wants p o ra = true
+    · obtain ⟨ev, hev, _, _, hc⟩ := iter_cont p mw o ra st prev h
+      rw [loop_cons_cont p mw o rest ra st prev h, calls_append, ih, hev]
+      have hr : retries p (o :: rest) ra = retries p rest (ra + 1) + 1 := by simp [retries, h]
+      have hf : (fun j => block p (ra + (j + 1) + 1)) = fun j => block p (ra + 1 + j + 1) := by
+        funext j
+        have e : ra + (j + 1) + 1 = ra + 1 + j + 1 := by omega
+        rw [e]
+      rw [hr, range_flatMap_succ, hf, hc]
+    · have h' : wants p o ra = false := by simpa using h
+      obtain ⟨ev, fin, hev, _, hc, -⟩ := iter_stop p mw o ra st prev h'
+      obtain ⟨fin', _, hl⟩ := loop_cons_stop p mw o rest ra st prev h'
+      rw [hl, hev]
+      simp [hc, retries, h']
+
+/-- The response `resp` holds before iteration `k` of the loop (`prev` before the first). -/
+def respBefore (prev : Option Resp) (script : List Outcome) (ra : Nat) : Nat → Option Resp
+  | 0 => prev
+  | k + 1 => (script[k]?).map fun o => respOf o (ra + k)
+
+/-- **result_is_last**: when `do` returns, the response is the one of the last attempt `k`, and
+the error is that attempt's round-trip error — or the error of the request-level response
+middleware that aborted that attempt.  (If the last iteration never reached the wire because a
+request middleware failed, the error is that middleware's and `resp` is still the previous
+attempt's response.) -/
+theorem result_is_last (script : List Outcome) (ra : Nat) (st : σ) (prev : Option Resp)
+    (ev : List (Event W)) (resp : Option Resp) (err : Option Err)
+    (h : loop R p mw script ra st prev = (ev, .done resp err)) :
+    ∃ k o, script[k]? = some o ∧ iterations ev = k + 1 ∧
+      (o ≠ .beforeErr →
+        resp = some (respOf o (ra + k)) ∧
+        (err = o.errKind.map (ra + k, ·) ∨
+          (aborted p o (ra + k) = true ∧ ∃ j, err = some (ra + k, .after j)))) ∧
+      (o = .beforeErr → resp = respBefore prev script ra k ∧ err = some (ra + k, .before)) := by
+  induction script generalizing ra st prev ev with
+  | nil => simp [loop] at h
+  | cons o rest ih =>
+    by_cases hw : wants p o ra = true
+    · obtain ⟨ev1, hev, hi, -⟩ := iter_cont p mw o ra st prev hw
+      rw [loop_cons_cont p mw o rest ra st prev hw] at h
+      simp only [Prod.mk.injEq] at h
+      obtain ⟨hev2, hfin⟩ := h
+      obtain ⟨k, o', hk, hit, h1, h2⟩ := ih (ra + 1) (nextState p mw o ra st) (some (respOf o ra)) _
+        (Prod.ext rfl hfin)
+      have e : ra + 1 + k = ra + (k + 1) := by omega
+      refine ⟨k + 1, o', by simpa using hk, ?_, ?_, ?_⟩
+      · rw [← hev2, iterations_append, hit, hev]; simp [hi]; omega
+      · rw [← e]; exact h1
+      · intro hb
+        obtain ⟨hr, he⟩ := h2 hb
+        rw [← e]
+        refine ⟨?_, he⟩
+        rw [hr]
+        cases k with
+        | zero => simp [respBefore]
+        | succ j =>
+          have e2 : ra + 1 + j = ra + (j + 1) := by omega
+          simp [respBefore, e2]
+    · have hw' : wants p o ra = false := by simpa using hw
+      obtain ⟨ev1, fin, hev, hi, _, _, hb, hnb⟩ := iter_stop p mw o ra st prev hw'
+      obtain ⟨fin', hf', hl⟩ := loop_cons_stop p mw o rest ra st prev hw'
+      rw [hl, hev] at h
+      simp only [Prod.mk.injEq] at h
+      rw [hev] at hf'
+      simp only [Sum.inl.injEq] at hf'
+      obtain ⟨rfl, hfin⟩ := h
+      subst hf'
+      refine ⟨0, o, by simp, by simp [hi], ?_, ?_⟩
+      · intro ho
+        obtain ⟨err', hd, hcase⟩ := hnb ho
+        rw [hfin] at hd
+        simp only [Final.done.injEq] at hd
+        obtain ⟨rfl, rfl⟩ := hd
+        exact ⟨rfl, hcase⟩
+      · intro ho
+        have := hb ho
+        rw [hfin] at this
+        simp only [Final.done.injEq] at this
+        obtain ⟨rfl, rfl⟩ := this
+        exact ⟨rfl, rfl⟩
+
+/-- The repaired loop always returns: no nil dereference. -/
+theorem repaired_never_panics (script : List Outcome) (ra : Nat) (st : σ) (prev : Option Resp) :
+    (loop R p mw script ra st prev).2 ≠ .panic := by
+  induction script generalizing ra st prev with
+  | nil => simp [loop]
+  | cons o rest ih =>
+    by_cases hw : wants p o ra = true
+    · rw [loop_cons_cont p mw o rest ra st prev hw]; exact ih _ _ _
+    · have hw' : wants p o ra = false := by simpa using hw
+      obtain ⟨ev1, fin, hev, _, _, _, hb, hnb⟩ := iter_stop p mw o ra st prev hw'
+      obtain ⟨fin', hf', hl⟩ := loop_cons_stop p mw o rest ra st prev hw'
+      rw [hl]
+      rw [hev] at hf'
+      simp only [Sum.inl.injEq] at hf'
+      subst hf'
+      by_cases ho : o = .beforeErr
+      · rw [hb ho]; simp
+      · obtain ⟨e, he, -⟩ := hnb ho
+        rw [he]; simp
+
+/-- **unreplayable_fails_upfront**: a retryable request (retry option present, count ≠ 0) with a
+body that cannot be replayed is refused before anything is sent … -/
+theorem unreplayable_fails_upfront (v : Variant) (script : List Outcome) (st : σ)
+    (he : p.enabled = true) (hn : p.maxRetries ≠ 0) :
+    (run v p mw true script st).final = .refused ∧ (run v p mw true script st).events = [] := by
+  simp [run, he, hn]
+
+/-- … and conversely an unreplayable body is only ever sent when no retry can follow: at most
+once. -/
+theorem unreplayable_sent_at_most_once (script : List Outcome) (st : σ)
+    (h : (run R p mw true script st).final ≠ .refused) :
+    (wires (run R p mw true script st).events).length ≤ 1 := by
+  unfold run at *
+  split
+  · simp [wires]
+  · rename_i hc
+    have hd : p.enabled = false ∨ p.maxRetries = 0 := by
+      by_cases he : p.enabled = true
+      · by_cases hn : p.maxRetries = 0
+        · exact Or.inr hn
+        · simp [he, hn] at hc
+      · exact Or.inl (by simpa using he)
+    cases script with
+    | nil => simp [loop, wires]
+    | cons o rest =>
+      have := single_attempt p mw (o :: rest) 0 st none hd (by simp)
+      exact Nat.le_trans (wires_le_iterations p mw (o :: rest) 0 st none) (by omega)
+
 end Req.Props.C10
